@@ -118,6 +118,12 @@ def run(prop, tier):
                 rep.violation("design: ClusterCache violates %s" % r["violated"], {"tlc": r.get("out", "")[-3000:]})
         elif r["ok"] or "ReadsOwnCluster" not in str(r["violated"]):
             raise C.ToolError("ClusterCache with Counted = FALSE should violate ReadsOwnCluster: %s" % r["violated"])
+    # unbounded safety: the inductive invariant behind LengthsOrdered / ReadsBelowWritten, proved for any number of readers, chunks, requests
+    pr = C.tlapm("DecoderProofs", ["Decoder"], "DecoderProofs_%s" % prop)
+    rep.cov.setdefault("proofs", []).append({"module": "DecoderProofs", "theorem": "Spec => [](LengthsOrdered /\\ ReadsBelowWritten), any Readers / Total / MaxReq",
+                                              "obligations_proved": pr["obligations"], "ok": pr["ok"], "seconds": pr["seconds"]})
+    if not pr["ok"]:
+        raise C.ToolError("tlapm did not prove DecoderProofs: %s" % pr["out"][-600:])
     for readers, total, maxreq in grid:
         r = C.tlc("Decoder", mc_cfg(readers, total, maxreq), "MC_Decoder_%d_%d_%d" % (readers, total, maxreq), timeout=3000)
         rep.add_tlc(r, "MC_Decoder readers=%d chunks=%d requests=%d (safety + liveness)" % (readers, total, maxreq))
